@@ -52,13 +52,35 @@ type Outcome struct {
 	Printed string `json:"printed"` // print/println builtins and h.Emit, through RunOptions.Print
 	Err     string `json:"err"`     // error returned by Run
 	Panic   string `json:"panic"`   // host panic out of Run
+	// what the run's native goroutines (h.Recd, h.RecTag started with go) recorded, sorted
+	Recorded string `json:"recorded"`
 }
 
 func (o Outcome) String() string {
-	return fmt.Sprintf("out=%q printed=%q err=%q panic=%q", o.Out, o.Printed, o.Err, o.Panic)
+	return fmt.Sprintf("out=%q printed=%q err=%q panic=%q recorded=%q", o.Out, o.Printed, o.Err, o.Panic, o.Recorded)
 }
 
 type inputKey struct{}
+type recKey struct{}
+
+// recorder collects what native functions started with `go` record for one run.
+type recorder struct {
+	mu   sync.Mutex
+	list []string
+}
+
+func (r *recorder) add(s string) {
+	r.mu.Lock()
+	r.list = append(r.list, s)
+	r.mu.Unlock()
+}
+
+func recOf(env native.Env) *recorder {
+	if r, ok := env.Context().Value(recKey{}).(*recorder); ok {
+		return r
+	}
+	return &recorder{}
+}
 
 // Counter is a native type with methods (method values go through callable.value).
 type Counter struct{ N int }
@@ -93,6 +115,24 @@ func decls() native.Declarations {
 		"Repeat":  func(s string, n int) string { return strings.Repeat(s, n) },
 		"Itoa":    func(n int) string { return strconv.Itoa(n) },
 		"Counter": reflect.TypeFor[Counter](),
+		// natives meant to be started with go (all signatures are outside the VM's five fast-path
+		// ones, so they are called through reflect with a pooled argument slice); each signals
+		// on a channel when done, so that generated code can wait for it
+		"Send":    func(ch chan int, x int) { ch <- x },
+		"SendMul": func(ch chan int, a, b int) { ch <- a * b },
+		"SendSum": func(ch chan int, xs ...int) {
+			s := 0
+			for _, x := range xs {
+				s += x
+			}
+			ch <- s
+		},
+		"SendS": func(ch chan string, s string, n int) { ch <- strings.Repeat(s, n) },
+		"Recd":  func(env native.Env, ch chan int, f int, x int) { recOf(env).add(strconv.Itoa(3*x + f)); ch <- 1 },
+		"RecTag": func(env native.Env, ch chan int, tag string, xs ...int) {
+			recOf(env).add(tag + fmt.Sprint(xs))
+			ch <- len(xs)
+		},
 		"Gosched": func() { runtime.Gosched() },
 		"Sleep":   func(us int) { time.Sleep(time.Duration(us) * time.Microsecond) },
 	}
@@ -161,7 +201,15 @@ func (a *Artefact) RunOnce(in Input, parent context.Context) (o Outcome) {
 	if parent == nil {
 		parent = context.Background()
 	}
-	ctx := context.WithValue(parent, inputKey{}, in)
+	rec := &recorder{}
+	defer func() {
+		rec.mu.Lock()
+		l := append([]string(nil), rec.list...)
+		rec.mu.Unlock()
+		sort.Strings(l)
+		o.Recorded = strings.Join(l, ",")
+	}()
+	ctx := context.WithValue(context.WithValue(parent, inputKey{}, in), recKey{}, rec)
 	opts := &scriggo.RunOptions{Context: ctx, Print: func(v any) {
 		mu.Lock()
 		fmt.Fprint(&printed, v)
@@ -183,7 +231,7 @@ func (a *Artefact) RunOnce(in Input, parent context.Context) (o Outcome) {
 }
 
 // HangTimeout bounds the concurrent runs of one case (generated code terminates in milliseconds).
-var HangTimeout = 15 * time.Second
+var HangTimeout = 8 * time.Second
 
 // Result of a case: what each run gave and what a fresh build's single run gives.
 type Result struct {
